@@ -151,6 +151,62 @@ theorem serveMw_eq (m : Mw) (r : Req) (pre : HdrMap) : Gen.GoSrc.serveMw m r pre
   | none => rfl
   | some icfg => exact serveClosure_eq icfg m.debug r pre
 
+/-- `validatePreflightStatus` as translated = `Validate.status`: the accepted range, the error value with its bounds, and the
+stored offset `uint8(status - 200)` (no truncation before the range check). -/
+theorem validatePreflightStatus_eq (s : Int) :
+    Gen.GoSrc.validatePreflightStatus s =
+      (match Validate.status s with | .ok v => (none, v) | .error e => (some e, 0)) := by
+  unfold Gen.GoSrc.validatePreflightStatus Validate.status GoRt.uint8 GoRt.nat
+  by_cases h0 : s = 0
+  · subst h0; decide
+  · have hb : (s == 0) = false := by simpa using h0
+    simp only [hb, Bool.false_eq_true, if_false]
+    by_cases hr : (200 : Int) ≤ s ∧ s ≤ 299
+    · have h1 : decide ((200 : Int) ≤ s) = true := by simpa using hr.1
+      have h2 : decide (s ≤ (299 : Int)) = true := by simpa using hr.2
+      have h3 : (decide (((Facts.cors_validatePreflightStatus_lowerBound : Nat) : Int) ≤ s) && decide (s ≤ ((Facts.cors_validatePreflightStatus_upperBound : Nat) : Int))) = true := by
+        simp [Facts.cors_validatePreflightStatus_lowerBound, Facts.cors_validatePreflightStatus_upperBound, hr.1, hr.2]
+      simp only [h1, h2, Bool.and_self, Bool.not_true, Bool.false_eq_true, if_false, h3]
+      congr 1
+      omega
+    · have hout : s < 200 ∨ 299 < s := by omega
+      have h4 : (decide ((200 : Int) ≤ s) && decide (s ≤ (299 : Int))) = false := by
+        rw [Bool.and_eq_false_iff]
+        rcases hout with h | h
+        · left; simp only [decide_eq_false_iff_not]; omega
+        · right; simp only [decide_eq_false_iff_not]; omega
+      have h3 : (decide (((Facts.cors_validatePreflightStatus_lowerBound : Nat) : Int) ≤ s) && decide (s ≤ ((Facts.cors_validatePreflightStatus_upperBound : Nat) : Int))) = false := by
+        exact h4
+      simp only [h3, h4, Bool.not_false, if_true]
+      rfl
+
+/-- `validateMaxAge` as translated = `Validate.maxAge`: the accepted range, the error value with its bounds, `-1` as `0`,
+`0` as "no header", and the decimal rendering otherwise. -/
+theorem validateMaxAge_eq (d : Int) :
+    Gen.GoSrc.validateMaxAge d =
+      (match Validate.maxAge d with | .ok v => (none, v) | .error e => (some e, [])) := by
+  unfold Gen.GoSrc.validateMaxAge Validate.maxAge GoRt.nat GoRt.itoa
+  by_cases hout : d < -1 ∨ 86400 < d
+  · have h1 : (decide (d < (-1 : Int)) || decide ((86400 : Int) < d)) = true := by
+      rcases hout with h | h <;> simp [h]
+    have h2 : (decide (d < Facts.cors_validateMaxAge_disableCaching) || decide (((Facts.cors_validateMaxAge_upperBound : Nat) : Int) < d)) = true := h1
+    simp only [h1, if_true, h2]
+    rfl
+  · have h1 : (decide (d < (-1 : Int)) || decide ((86400 : Int) < d)) = false := by
+      rw [Bool.or_eq_false_iff]; constructor <;> simp only [decide_eq_false_iff_not] <;> omega
+    have h2 : (decide (d < Facts.cors_validateMaxAge_disableCaching) || decide (((Facts.cors_validateMaxAge_upperBound : Nat) : Int) < d)) = false := h1
+    simp only [h1, Bool.false_eq_true, if_false, h2]
+    by_cases hm : d = -1
+    · subst hm; decide
+    · have hb : (d == (-1 : Int)) = false := by simpa using hm
+      have hb' : (d == Facts.cors_validateMaxAge_disableCaching) = false := hb
+      simp only [hb, hb', Bool.false_eq_true, if_false]
+      by_cases hz : d = 0
+      · subst hz; decide
+      · have hz' : (d == (0 : Int)) = false := by simpa using hz
+        have hpos : ¬ d < 0 := by omega
+        simp only [hz', Bool.false_eq_true, if_false, hpos]
+
 /-- The four decision steps of the preflight pipeline, as translated from the working tree, are the modelled ones. -/
 theorem pipeline_eq (icfg : ICfg) (buf : Buf) (reqHdrs : HdrMap) (origin acrm : Bytes) (debug : Bool) :
     Gen.GoSrc.processOriginForPreflight icfg buf origin [origin] = GoRt.result buf (Serve.processOriginForPreflight (modelDec icfg) icfg buf origin) ∧
